@@ -76,6 +76,15 @@ const (
 
 const testDenom = "utest" // a second native coin, registered as an ERC20 pair through governance
 
+// Further denominations every user holds when the genesis asks for them (bhGenesis.Extra): an IBC
+// voucher, and two plain coins chosen for their place in the bank's byte-wise denomination order
+//   USDX < aISLM < aLIQUIDn < ibc/… < utest < zcoin
+// so that a coin list (a governance deposit, the community pool) can meet a denomination that sorts
+// before, between and after the ones it already holds.
+var bhExtraDenoms = []string{"ibc/27394FB092D2ECCD56123C74F36E4C1F926001CEADA9CA97EA622B25F41E5EB2", "USDX", "zcoin"}
+
+const bhExtraAmount = 2_000_000_000
+
 var (
 	bhUserKey  [bhNU]*ethsecp256k1.PrivKey
 	bhUserEth  [bhNU]common.Address
@@ -143,17 +152,18 @@ type bhInstr struct {
 }
 
 type bhTx struct {
-	K  string    `json:"k"`
-	F  int       `json:"f"`
-	T  int       `json:"t,omitempty"`
-	V  int       `json:"v,omitempty"`
-	V2 int       `json:"v2,omitempty"`
-	A  string    `json:"a,omitempty"`
-	D  string    `json:"d,omitempty"`
-	N  int64     `json:"n,omitempty"`
-	N2 int64     `json:"n2,omitempty"`
-	S  string    `json:"s,omitempty"`
-	B  []bhInstr `json:"b,omitempty"`
+	K  string      `json:"k"`
+	F  int         `json:"f"`
+	T  int         `json:"t,omitempty"`
+	V  int         `json:"v,omitempty"`
+	V2 int         `json:"v2,omitempty"`
+	A  string      `json:"a,omitempty"`
+	D  string      `json:"d,omitempty"`
+	X  [][2]string `json:"x,omitempty"` // further coins [denomination, amount] beside A of D: propose / deposit / fundpool
+	N  int64       `json:"n,omitempty"`
+	N2 int64       `json:"n2,omitempty"`
+	S  string      `json:"s,omitempty"`
+	B  []bhInstr   `json:"b,omitempty"`
 }
 
 type bhEvidence struct {
@@ -170,12 +180,15 @@ type bhBlock struct {
 }
 
 type bhGenesis struct {
-	NVal       int  `json:"nval"`
-	MaxVals    int  `json:"maxvals"`
-	Coinomics  bool `json:"coinomics"`
-	Window     int  `json:"window"`     // slashing signed-blocks window
-	UnbondSecs int  `json:"unbondsecs"` // staking unbonding time
-	VoteSecs   int  `json:"votesecs"`   // gov voting period
+	NVal       int         `json:"nval"`
+	MaxVals    int         `json:"maxvals"`
+	Coinomics  bool        `json:"coinomics"`
+	Window     int         `json:"window"`           // slashing signed-blocks window
+	UnbondSecs int         `json:"unbondsecs"`       // staking unbonding time
+	VoteSecs   int         `json:"votesecs"`         // gov voting period
+	Extra      bool        `json:"extra,omitempty"`  // every user also holds the denominations of bhExtraDenoms
+	MinDep     [][2]string `json:"mindep,omitempty"` // further coins [denomination, amount] of the gov min deposit beside 10 ISLM
+	NoBurn     int         `json:"noburn,omitempty"` // gov burn switches turned off: 1 quorum, 2 deposit-prevote, 4 veto
 }
 
 type bhInput struct {
@@ -191,6 +204,21 @@ func coinsOf(denom string, amt *big.Int) sdk.Coins {
 
 func mulE18(n int64) *big.Int { return new(big.Int).Mul(big.NewInt(n), e18) }
 
+// coinsFromPairs builds a valid (sorted, merged) coin list from [denomination, amount] pairs;
+// pairs with a non-positive amount are dropped, a malformed denomination is an error.
+func coinsFromPairs(ps [][2]string) (sdk.Coins, error) {
+	out := sdk.NewCoins()
+	for _, p := range ps {
+		if err := sdk.ValidateDenom(p[0]); err != nil {
+			return nil, err
+		}
+		if amt := intA(p[1]); amt.IsPositive() {
+			out = out.Add(sdk.NewCoin(p[0], amt))
+		}
+	}
+	return out, nil
+}
+
 func bhGenesisState(a *app.Haqq, g bhGenesis) []byte {
 	cdc := a.AppCodec()
 	gs := app.NewDefaultGenesisState()
@@ -204,6 +232,11 @@ func bhGenesisState(a *app.Haqq, g bhGenesis) []byte {
 	for i := 0; i < bhNU; i++ {
 		accs = append(accs, &haqqtypes.EthAccount{BaseAccount: authtypes.NewBaseAccount(bhUserAcc[i], nil, 0, 0), CodeHash: emptyHash})
 		c := sdk.NewCoins(sdk.NewCoin(utils.BaseDenom, sdkmath.NewIntFromBigInt(mulE18(5_000_000))), sdk.NewCoin(testDenom, sdkmath.NewInt(1_000_000_000)))
+		if g.Extra {
+			for _, d := range bhExtraDenoms {
+				c = c.Add(sdk.NewCoin(d, sdkmath.NewInt(bhExtraAmount)))
+			}
+		}
 		balances = append(balances, banktypes.Balance{Address: bhUserAcc[i].String(), Coins: c})
 		supply = supply.Add(c...)
 	}
@@ -265,9 +298,12 @@ func bhGenesisState(a *app.Haqq, g bhGenesis) []byte {
 	// governance: short periods, every burn switch on (burns of deposits are redirected to the community pool)
 	gp := govv1.DefaultParams()
 	gp.MinDeposit = coinsOf(utils.BaseDenom, mulE18(10))
+	if extra, err := coinsFromPairs(g.MinDep); err == nil {
+		gp.MinDeposit = sdk.NewCoins(gp.MinDeposit...).Add(extra...)
+	}
 	md, vp := 40*time.Second, time.Duration(g.VoteSecs)*time.Second
 	gp.MaxDepositPeriod, gp.VotingPeriod = &md, &vp
-	gp.BurnVoteQuorum, gp.BurnProposalDepositPrevote, gp.BurnVoteVeto = true, true, true
+	gp.BurnVoteQuorum, gp.BurnProposalDepositPrevote, gp.BurnVoteVeto = g.NoBurn&1 == 0, g.NoBurn&2 == 0, g.NoBurn&4 == 0
 	gs[govtypes.ModuleName] = cdc.MustMarshalJSON(govv1.NewGenesisState(1, gp))
 
 	cp := coinomicstypes.DefaultParams()
@@ -724,6 +760,18 @@ func (r *Replica) buildTx(ctx sdk.Context, t bhTx) ([]byte, error) {
 		denom = utils.BaseDenom
 	}
 	coin := func() sdk.Coin { return sdk.Coin{Denom: denom, Amount: intA(t.A)} }
+	// coins: the coin list of a deposit / community-pool funding.  Without further coins it is the single
+	// coin as written (a zero amount then makes the message invalid, which is wanted now and then); with
+	// further coins (t.X) the positive ones are merged into a valid list, as a client would build it.
+	coins := func() (sdk.Coins, error) {
+		if len(t.X) == 0 {
+			return sdk.Coins{coin()}, nil
+		}
+		if err := sdk.ValidateDenom(denom); err != nil {
+			return nil, err
+		}
+		return coinsFromPairs(append([][2]string{{denom, bigA(t.A).String()}}, t.X...))
+	}
 	gas := uint64(400_000)
 	var msgs []sdk.Msg
 	switch t.K {
@@ -744,7 +792,11 @@ func (r *Replica) buildTx(ctx sdk.Context, t bhTx) ([]byte, error) {
 	case "setwithdraw":
 		msgs = []sdk.Msg{&distrtypes.MsgSetWithdrawAddress{DelegatorAddress: from.String(), WithdrawAddress: toAcc.String()}}
 	case "fundpool":
-		msgs = []sdk.Msg{&distrtypes.MsgFundCommunityPool{Depositor: from.String(), Amount: sdk.Coins{coin()}}}
+		cs, err := coins()
+		if err != nil {
+			return nil, err
+		}
+		msgs = []sdk.Msg{&distrtypes.MsgFundCommunityPool{Depositor: from.String(), Amount: cs}}
 	case "unjail":
 		msgs = []sdk.Msg{&slashingtypes.MsgUnjail{ValidatorAddr: sdk.ValAddress(from).String()}}
 	case "createval":
@@ -757,8 +809,11 @@ func (r *Replica) buildTx(ctx sdk.Context, t bhTx) ([]byte, error) {
 		msgs = []sdk.Msg{m}
 	case "propose":
 		gas = 6_000_000
-		dep := sdk.Coins{coin()}
-		if !dep[0].Amount.IsPositive() {
+		dep, err := coins()
+		if err != nil {
+			return nil, err
+		}
+		if len(dep) == 1 && !dep[0].Amount.IsPositive() {
 			dep = sdk.Coins{}
 		}
 		switch t.S {
@@ -786,7 +841,11 @@ func (r *Replica) buildTx(ctx sdk.Context, t bhTx) ([]byte, error) {
 			msgs = []sdk.Msg{m}
 		}
 	case "deposit":
-		msgs = []sdk.Msg{govv1.NewMsgDeposit(from, uint64(t.N), sdk.Coins{coin()})}
+		cs, err := coins()
+		if err != nil {
+			return nil, err
+		}
+		msgs = []sdk.Msg{govv1.NewMsgDeposit(from, uint64(t.N), cs)}
 	case "vote":
 		msgs = []sdk.Msg{govv1.NewMsgVote(from, uint64(t.N), govv1.VoteOption(t.V), "")}
 	case "vest":
@@ -988,7 +1047,8 @@ func mustProto(m interface{ Marshal() ([]byte, error) }) []byte {
 
 // stepHooks lets a driver look at the replica between the ABCI calls.
 type stepHooks struct {
-	AfterEndBlock func(h *histRun, height int64)
+	BeforeEndBlock func(h *histRun, height int64) // after the last DeliverTx (the EndBlockers have not run yet)
+	AfterEndBlock  func(h *histRun, height int64)
 	AfterCommit   func(h *histRun, height int64)
 	// GenTx, when set, produces the transactions of the block while it is executed
 	// (generation looks at the state); the block description is filled in place.
@@ -1088,6 +1148,9 @@ func (h *histRun) runBlock(b *bhBlock, raw *rawBlock, hooks *stepHooks) (blockRe
 			tr.Digest = digest(mustProto(&res))
 		}
 		br.Txs = append(br.Txs, tr)
+	}
+	if hooks != nil && hooks.BeforeEndBlock != nil {
+		hooks.BeforeEndBlock(h, br.Height)
 	}
 	eres, pan := r.endBlock()
 	if pan != "" {
